@@ -2,17 +2,21 @@
 
 `avl_translate_and_tie(ctx)` regenerates the static helpers of src/avl.c (a_avl_new_child, a_avl_child, a_avl_set_child,
 a_avl_set_parent_factor, a_avl_set_parent, a_avl_factor, a_avl_set_factor, a_avl_rotate, a_avl_rotate2, a_avl_handle_growth), the
-exported a_avl_insert_adjust (first level + its retrace loop, with fuel) and the accessor a_avl_parent of include/a/avl.h from the
-CURRENT sources with tools/c2avl.py, once per node layout (packed word
+exported a_avl_insert_adjust (first level + its retrace loop, with fuel), the removal side (a_avl_handle_shrink, a_avl_handle_remove
+with its descent loop, a_avl_remove with its retrace loop) and the accessor a_avl_parent of include/a/avl.h from the CURRENT sources with tools/c2avl.py, once per node layout (packed word
 parent_, A_SIZE_POINTER 8; separate parent / factor fields, A_SIZE_POINTER 1), into build/C01/gen_avl/<layout>/AvlGen.v, and
-compiles harness/C01/TieAvl.v against each.  Every `Theorem tie_*` there is one obligation per layout:
+compiles harness/C01/TieAvl.v, TieAvlRemove.v and TieAvlInsert.v against each.  Every `Theorem tie_*` there is one obligation per layout:
   * the accessors and setters are the field operations the model's helpers stand for, for every state and argument;
   * a_avl_rotate / a_avl_rotate2 / a_avl_handle_growth, run on ANY heap in which a tree A (distinct ids) is laid out below a slot
     (Repr of coq/C01/AvlTieLemmas.v), succeed and leave a heap in which AvlDefs.rotate / rotate2 / handle_growth of A is laid
     out below the same slot, every cell outside A untouched;
   * a_avl_insert_adjust, run with fuel >= height on ANY heap that lays out a balanced search tree t with the new leaf linked at
     its search position, returns a heap that lays out the tree AvlDefs.ins returns (the bottom-up loop against the model's
-    recursion), every other cell untouched.
+    recursion), every other cell untouched;
+  * a_avl_handle_shrink (all arms, with the `*left` out-parameter), a_avl_handle_remove (successor splice) and a_avl_remove (fuel >=
+    height, started at the node the model removes) likewise against AvlDefs.handle_shrink / rem_min / rem;
+  * a_avl_init, the whole public a_avl_insert (descent with the comparator as a Gallina function, init, link, retrace) against
+    AvlDefs.ins, and a_avl_search = AvlDefs.search.
 `Print Assumptions` under each must say "Closed under the global context".  Failures go to ctx.tie_broken with the name of the
 tie theorem.  The part of the argument that does not depend on the C (coq/C01/AvlTieLemmas.v: vocabulary, packed-word
 arithmetic, Repr and its frame lemmas, cell-level description of a rotation => rotated tree) is compiled by ctx.coq_build
@@ -32,7 +36,10 @@ except ImportError:  # pragma: no cover
     import c2avl
 
 TIE_FILE = vlib.VERIF / "harness" / "C01" / "TieAvl.v"
+# compiled in this order against the same generated module (a later file may require an earlier one as Gen.<name>)
+TIE_FILES = [TIE_FILE, vlib.VERIF / "harness" / "C01" / "TieAvlRemove.v", vlib.VERIF / "harness" / "C01" / "TieAvlInsert.v"]
 LEMMAS = "C01/AvlTieLemmas.v"
+LEMMA_FILES = [LEMMAS, "C01/AvlTieLemmasRemove.v", "C01/AvlTieLemmasInsert.v"]
 LAYOUTS = (("packed", "A_SIZE_POINTER 8: parent and factor+1 in the word parent_"),
            ("unpacked", "A_SIZE_POINTER 1: separate fields parent and factor"))
 # which tie theorems speak about a function (its own, and those of the functions that call it)
@@ -48,7 +55,15 @@ USED_BY = {
     "a_avl_rotate": ["a_avl_handle_growth", "a_avl_insert_adjust"],
     "a_avl_rotate2": ["a_avl_handle_growth", "a_avl_insert_adjust"],
     "a_avl_handle_growth": ["a_avl_insert_adjust"],
+    "a_avl_handle_shrink": ["a_avl_remove"],
+    "a_avl_init": ["a_avl_insert"],
+    "a_avl_insert_adjust": ["a_avl_insert"],
+    "a_avl_handle_remove": ["a_avl_remove"],
 }
+for _f in ("a_avl_parent", "a_avl_factor", "a_avl_set_factor", "a_avl_child", "a_avl_rotate", "a_avl_rotate2"):
+    USED_BY[_f] = USED_BY[_f] + ["a_avl_handle_shrink", "a_avl_remove"]
+for _f in ("a_avl_parent", "a_avl_set_parent", "a_avl_new_child"):
+    USED_BY[_f] = USED_BY[_f] + ["a_avl_handle_remove", "a_avl_remove"]
 USED_BY["a_avl_parent"].append("a_avl_insert_adjust")
 
 
@@ -102,9 +117,11 @@ def theorems_about(fn, thms):
     return out
 
 
-def one_layout(ctx, layout, what, tie_src, thms, funcs, timeout):
+def one_layout(ctx, layout, what, ties, thms, funcs, timeout):
+    """ties: [(path, source, [theorem names])]; thms: all theorem names in order"""
     r = {"layout": layout, "text": "", "errs": {}, "facts": {}, "broken": [], "discharged": 0}
     tag = "%s layout (%s)" % (layout, what)
+    names = ", ".join(p.name for p, _, _ in ties)
     # a run against a scratch copy (VERIF_REPO) gets its own directory: it may run at the same time as a run on /repo
     scratch = "" if str(vlib.REPO) == "/repo" else "_" + hashlib.md5(str(vlib.REPO).encode()).hexdigest()[:8]
     gd = ctx.build / ("gen_avl" + scratch) / layout
@@ -122,68 +139,79 @@ def one_layout(ctx, layout, what, tie_src, thms, funcs, timeout):
         for k, v in errs.items():
             about = theorems_about(k, thms)
             r["broken"].append("translator c2avl, %s: %s is outside the supported subset, so tie theorem %s cannot be checked: %s"
-                               % (tag, k, ", ".join(about) if about else "(all of %s)" % TIE_FILE.name, v))
+                               % (tag, k, ", ".join(about) if about else "(all of %s)" % names, v))
         return r
     args = ["coqc", "-Q", str(vlib.COQ), "LibaV", "-Q", str(gd), "Gen", "-w", "none"]
     rc, out = vlib.sh(args + [str(gd / "AvlGen.v")], cwd=gd, timeout=timeout)
     if rc != 0:
         r["broken"].append("generated pointer programs AvlGen.v (%s) do not compile (all tie theorems of %s): %s"
-                           % (tag, TIE_FILE.name, first_error(out)[1]))
+                           % (tag, names, first_error(out)[1]))
         return r
-    tf = gd / TIE_FILE.name
-    tf.write_text(tie_src)
-    rc, out = vlib.sh(args + [str(tf)], cwd=gd, timeout=timeout)
-    if rc != 0:
-        line, msg = first_error(out)
-        name, thm = owner_theorem(tie_src, line) if line else (None, None)
-        if rc == 124:
-            msg = "coqc timeout after %ds; %s" % (timeout, msg)
-        if thm and name and name != thm:
-            which = "tie theorem %s (its lemma %s)" % (thm, name)
-        else:
-            which = "tie theorem %s" % (thm or name or "?")
-        r["broken"].append("regenerated pointer code of src/avl.c no longer implements the proved tree model, %s: %s of %s fails: %s"
-                           % (tag, which, TIE_FILE.name, msg))
-        r["discharged"] = thms.index(thm) if thm in thms else 0
-        return r
-    paf = gd / "PA_TieAvl.v"
-    paf.write_text("From Gen Require Import %s.\n" % TIE_FILE.stem + "".join("Print Assumptions %s.\n" % t for t in thms))
-    rc, pa = vlib.sh(args + [str(paf)], cwd=gd, timeout=timeout)
-    closed = len(re.findall(r"^Closed under the global context", pa, flags=re.M))
-    if rc != 0 or closed < len(thms):
-        r["broken"].append("Print Assumptions under the tie theorems of %s, %s: %d of %d closed: %s"
-                           % (TIE_FILE.name, tag, closed, len(thms), " ".join(pa.split())[-300:]))
-        return r
-    r["discharged"] = len(thms)
+    for path, src, mine in ties:
+        tf = gd / path.name
+        tf.write_text(src)
+        rc, out = vlib.sh(args + [str(tf)], cwd=gd, timeout=timeout)
+        if rc != 0:
+            line, msg = first_error(out)
+            name, thm = owner_theorem(src, line) if line else (None, None)
+            if rc == 124:
+                msg = "coqc timeout after %ds; %s" % (timeout, msg)
+            if thm and name and name != thm:
+                which = "tie theorem %s (its lemma %s)" % (thm, name)
+            else:
+                which = "tie theorem %s" % (thm or name or "?")
+            r["broken"].append("regenerated pointer code of src/avl.c no longer implements the proved tree model, %s: %s of %s fails: %s"
+                               % (tag, which, path.name, msg))
+            if thm in mine:
+                r["discharged"] += mine.index(thm)
+            return r
+        paf = gd / ("PA_%s" % path.name)
+        paf.write_text("From Gen Require Import %s.\n" % path.stem + "".join("Print Assumptions %s.\n" % t for t in mine))
+        rc, pa = vlib.sh(args + [str(paf)], cwd=gd, timeout=timeout)
+        closed = len(re.findall(r"^Closed under the global context", pa, flags=re.M))
+        if rc != 0 or closed < len(mine):
+            r["broken"].append("Print Assumptions under the tie theorems of %s, %s: %d of %d closed: %s"
+                               % (path.name, tag, closed, len(mine), " ".join(pa.split())[-300:]))
+            return r
+        r["discharged"] += len(mine)
     return r
 
 
 def avl_translate_and_tie(ctx, timeout=600):
     """Returns True iff every tie theorem was accepted in both layouts."""
-    tie_src = TIE_FILE.read_text()
-    thms = re.findall(r"^\s*Theorem\s+(tie_[\w']+)", tie_src, flags=re.M)
-    # the functions the tie file speaks about (a function of a later stage is translated only once its theorem exists)
+    ties = []
+    for path in TIE_FILES:
+        if path.exists():
+            src = path.read_text()
+            ties.append((path, src, re.findall(r"^\s*Theorem\s+(tie_[\w']+)", src, flags=re.M)))
+    thms = [t for _, _, mine in ties for t in mine]
+    names = ", ".join(p.name for p, _, _ in ties)
+    # the functions the tie files speak about (a function of a later stage is translated only once its theorem exists)
     funcs = [f for f in c2avl.FUNCTIONS if f in c2avl.STAGE12 or "tie_" + f in thms]
     ctx.cov["obligations"] += len(thms) * len(LAYOUTS)
     ctx.cov.setdefault("translated_functions", []).extend(funcs)
     ctx.coq_setup()
-    bad = ctx.scan_forbidden_text(tie_src)
-    bad += re.findall(r"^\s*(?:Variable|Variables|Hypothesis|Hypotheses|Context)\b", tie_src, flags=re.M)
-    bad += ctx.scan_forbidden([vlib.COQ / f for f in ctx.coq_deps(LEMMAS)])     # the lemma file and everything it requires
+    lemma_files = [f for f in LEMMA_FILES if (vlib.COQ / f).exists()]
+    bad = []
+    for _, src, _ in ties:
+        bad += ctx.scan_forbidden_text(src)
+        bad += re.findall(r"^\s*(?:Variable|Variables|Hypothesis|Hypotheses|Context)\b", src, flags=re.M)
+    deps = sorted(set(d for f in lemma_files for d in ctx.coq_deps(f)))
+    bad += ctx.scan_forbidden([vlib.COQ / f for f in deps])     # the lemma files and everything they require
     if bad:
-        ctx.tie_broken("forbidden construct in %s / %s: %s" % (TIE_FILE.name, LEMMAS, bad))
+        ctx.tie_broken("forbidden construct in %s / %s: %s" % (names, ", ".join(lemma_files), bad))
         return False
     missing = [f for f in funcs if "tie_" + f not in thms]
     if missing:
-        ctx.tie_broken("%s has no tie theorem for: %s" % (TIE_FILE.name, ", ".join(missing)))
+        ctx.tie_broken("%s have no tie theorem for: %s" % (names, ", ".join(missing)))
         return False
-    ok, outs, failed = ctx.coq_build([LEMMAS], timeout=timeout)
+    ok, outs, failed = ctx.coq_build(lemma_files, timeout=timeout)
     if not ok:
         ctx.tie_broken("pointer-level lemmas %s (needed by every tie theorem of %s) do not compile: %s"
-                       % (", ".join(failed), TIE_FILE.name, " | ".join(" ".join(outs.get(f, "").split())[-300:] for f in failed)))
+                       % (", ".join(failed), names, " | ".join(" ".join(outs.get(f, "").split())[-300:] for f in failed)))
         return False
     with ThreadPoolExecutor(max_workers=len(LAYOUTS)) as ex:
-        res = list(ex.map(lambda lw: one_layout(ctx, lw[0], lw[1], tie_src, thms, funcs, timeout), LAYOUTS))
+        res = list(ex.map(lambda lw: one_layout(ctx, lw[0], lw[1], ties, thms, funcs, timeout), LAYOUTS))
     good = True
     for r in res:
         ctx.cov["discharged"] += r["discharged"]
@@ -210,7 +238,9 @@ def avl_translate_and_tie(ctx, timeout=600):
         "AvlDefs on every heap that lays the tree out, with frame) accepted by coqc, all closed under the global context; generated "
         "code %s in the two layouts"
         % (len(thms), len(LAYOUTS), " / a_avl_handle_growth" if "tie_a_avl_handle_growth" in thms else "",
-           " / a_avl_insert_adjust (loop, fuel >= height)" if "tie_a_avl_insert_adjust" in thms else "",
+           (" / a_avl_insert_adjust (loop, fuel >= height)" if "tie_a_avl_insert_adjust" in thms else "")
+           + (" / a_avl_handle_shrink / a_avl_handle_remove / a_avl_remove (loops, fuel >= height)" if "tie_a_avl_remove" in thms else "")
+           + (" / a_avl_insert (whole function, comparator = a Gallina function) / a_avl_search" if "tie_a_avl_insert" in thms else ""),
            "identical" if same else "DIFFERENT"))
     ctx.log("AVL pointer-level translator tie: %d functions regenerated per layout, %d tie theorems x %d layouts accepted%s"
             % (len(funcs), len(thms), len(LAYOUTS), "" if same else " (generated code differs between the layouts)"))
